@@ -161,8 +161,10 @@ def classic_2mul(a: fp.Real, b: fp.Real):
     - the rounding mode is round-nearest.
     """
 
-    with fp.INTEGER:
-        p = core.max_p()
+    # the precision is a property of the caller's context, so it is asked
+    # for before the context changes; half of it is then taken exactly
+    p = core.max_p()
+    with fp.REAL:
         s = fp.ceil(p / 2)
 
     ah, al = veltkamp_split(a, s)
